@@ -1,9 +1,14 @@
-from props_common import TRUSTED_COMMON, VIEW_RULE, views_harness
+from props_common import GEN_LAYOUT_TRUST, TRUSTED_COMMON, VIEW_RULE, views_harness
 
 PROP = {
-    "lean_targets": ["MultiProofs.C19", "MultiProofs.C19b"],
+    "generators": [{"script": "gen_layout.py"}],
+    "lean_targets": ["MultiProofs.C19", "MultiProofs.C19b", "MultiProofs.GenTie"],
     "lean_module": "MultiProofs.C19b",
     "theorems": [
+        "Multi.GenTie.range_functions_are_the_code",
+        "Multi.GenTie.layout_functions_are_the_code",
+        "Multi.GenTie.view_functions_are_the_code",
+        "Multi.GenTie.V_diagonal_aux_tie",
         "Multi.C19.rebased_root_is_shifted",
         "Multi.C19.reindexed_refines",
         "Multi.C19.blocked_refines",
@@ -17,7 +22,7 @@ PROP = {
         "Multi.C02.elemit_laws",
     ],
     "harnesses": [views_harness(["rebased"], 4800, 320000, modes_thorough=["rebased", "exhaustive-rebased"])],
-    "trusted_base": TRUSTED_COMMON,
+    "trusted_base": TRUSTED_COMMON + GEN_LAYOUT_TRUST,
     "assumptions": ["index bases drawn from -3..3 per dimension in the correspondence run; the theorems hold for every integer base",
                     "copying, assignment, equality and reextent of re-based arrays reduce to elements() of re-based views (C05/C06/C07 checks run re-based operands as well)",
                     ],
